@@ -113,7 +113,8 @@ def gen_rewrite(repo, out):
         else:
             die("%s.rewrite_files: unrecognised loop iterable %s" % (modname, ast.unparse(it)))
         # everything before the write loop must not write; the loop body must be: join, open(...), write
-        body_calls = [n.func.attr for n in ast.walk(loops[0]) if isinstance(n, ast.Call) and isinstance(n.func, ast.Attribute)]
+        body_calls = [n.func.attr for n in ast.walk(loops[0]) if isinstance(n, ast.Call) and isinstance(n.func, ast.Attribute)
+                      and not (isinstance(n.func.value, ast.Name) and n.func.value.id == "logger")]
         if sorted(body_calls) != ["join", "open", "write"]:
             die("%s.rewrite_files: unexpected calls in the write loop: %s" % (modname, sorted(body_calls)))
     out.write("Definition OPEN_CALLS : list (list N * option (list N) * option (list N) * option (list N)) := [\n" + ";\n".join(rows) + "\n].\n\n")
@@ -178,9 +179,27 @@ def gen_vcs(repo, out):
     emit_strs(out, "VCS_NAMES", names, "order of vcs.VCS_SUBCOMMANDS_BY_NAME (get_vcs_api tries them in this order)")
     # VCSAPI.__call__: argv = [part.format(**kwargs) for part in shlex.split(cmd_tmpl)]  (split first, then format)
     fn = top_func(mod, "__call__", cls="VCSAPI")
-    src = ast.unparse(fn)
-    split_then_format = "shlex.split(cmd_tmpl)" in src and "part.format(**kwargs)" in src
-    format_then_split = "shlex.split(cmd_str)" in src
+
+    def is_split(n):
+        return (isinstance(n, ast.Call) and isinstance(n.func, ast.Attribute) and n.func.attr == "split"
+                and isinstance(n.func.value, ast.Name) and n.func.value.id == "shlex" and len(n.args) == 1)
+
+    def has_format_of(node, name):
+        return any(isinstance(c, ast.Call) and isinstance(c.func, ast.Attribute) and c.func.attr == "format"
+                   and isinstance(c.func.value, ast.Name) and c.func.value.id == name for c in ast.walk(node))
+    formatted_names = set()      # locals bound to the result of <something>.format(...)
+    for n in ast.walk(fn):
+        if isinstance(n, ast.Assign) and isinstance(n.value, ast.Call) and isinstance(n.value.func, ast.Attribute) and n.value.func.attr == "format":
+            formatted_names |= {t.id for t in n.targets if isinstance(t, ast.Name)}
+    split_then_format = format_then_split = False
+    for n in ast.walk(fn):
+        if isinstance(n, (ast.ListComp, ast.GeneratorExp)) and len(n.generators) == 1 and is_split(n.generators[0].iter) \
+                and isinstance(n.generators[0].target, ast.Name) and has_format_of(n.elt, n.generators[0].target.id):
+            split_then_format = True      # [part.format(**values) for part in shlex.split(template)]
+        if is_split(n):
+            a = n.args[0]
+            if (isinstance(a, ast.Name) and a.id in formatted_names) or (isinstance(a, ast.Call) and isinstance(a.func, ast.Attribute) and a.func.attr == "format"):
+                format_then_split = True  # shlex.split(template.format(**values))
     if split_then_format == format_then_split:
         die("VCSAPI.__call__: cannot tell whether the template is split before or after formatting")
     out.write("(* VCSAPI.__call__ splits the command template with shlex before substituting the values *)\n"
@@ -194,7 +213,7 @@ EXTRA_GENERATORS.append(("vcs", gen_vcs))
 
 
 # ---------------------------------------------------------------- config: formats, candidates, defaults, init templates
-def gen_config(repo, out):
+def gen_config_pick(repo, out):
     mod = parse_file(repo, "config.py")
     emit_strs(out, "SUPPORTED_CONFIGS", str_seq(top_assign(mod, "SUPPORTED_CONFIGS")), "config.SUPPORTED_CONFIGS")
     # _pick_config_filepath: config_candidates = [path / "<name>", ...]
@@ -214,7 +233,11 @@ def gen_config(repo, out):
         names.append(cstr(e.right))
     emit_strs(out, "CONFIG_CANDIDATES", names, "config._pick_config_filepath: candidate order")
     # the section test: (b"bumpver]" in data or b"pycalver]" in data) and b"current_version" in data ; fallback name
+    import re as _re
     src = ast.unparse(fn)
+    m = _re.search(r"b'bumpver\]' in (\w+)", src)
+    if m:   # the name of the local holding the file's bytes does not matter
+        src = _re.sub(r"\b%s\b" % _re.escape(m.group(1)), "data", src)
     want = "(b'bumpver]' in data or b'pycalver]' in data) and b'current_version' in data"
     if want not in src:
         die("_pick_config_filepath: the has_bumpver_section test changed: expected %s" % want)
@@ -225,6 +248,10 @@ def gen_config(repo, out):
     if not (isinstance(ret, ast.Return) and isinstance(ret.value, ast.BinOp) and isinstance(ret.value.right, ast.Constant)):
         die("_pick_config_filepath: unexpected fallback")
     emit_str(out, "CONFIG_FALLBACK", cstr(ret.value.right), "config._pick_config_filepath: fallback file name")
+
+
+def gen_config_bool(repo, out):
+    mod = parse_file(repo, "config.py")
     # BOOL_OPTIONS = {'commit': False, 'tag': None, 'push': None}
     bo = top_assign(mod, "BOOL_OPTIONS")
     if not isinstance(bo, ast.Dict):
@@ -246,6 +273,10 @@ def gen_config(repo, out):
     if tup is None:
         die("_parse_cfg: truthy spellings tuple not found")
     emit_strs(out, "INI_TRUTHY", str_seq(tup), "config._parse_cfg: val.lower() in (...)")
+
+
+def gen_config_templates(repo, out):
+    mod = parse_file(repo, "config.py")
     # string constants
     for name in ("DEFAULT_CONFIGPARSER_BASE_TMPL", "DEFAULT_CONFIGPARSER_SETUP_CFG_STR", "DEFAULT_CONFIGPARSER_SETUP_PY_STR", "DEFAULT_CONFIGPARSER_README_RST_STR",
                  "DEFAULT_CONFIGPARSER_README_MD_STR", "DEFAULT_PYPROJECT_TOML_BASE_TMPL", "DEFAULT_BUMPVER_TOML_BASE_TMPL", "DEFAULT_TOML_PYCALVER_STR",
@@ -272,7 +303,9 @@ def gen_config(repo, out):
                   "Definition DEFAULT_PATTERNS_%s : list (list N * list N) := [\n%s\n].\n\n" % (label, label, ";\n".join(rows)))
 
 
-EXTRA_GENERATORS.append(("config", gen_config))
+EXTRA_GENERATORS.append(("config_pick", gen_config_pick))
+EXTRA_GENERATORS.append(("config_bool", gen_config_bool))
+EXTRA_GENERATORS.append(("config_templates", gen_config_templates))
 
 
 def gen_config_init(repo, out):
